@@ -1,2 +1,205 @@
-/-! Driver for C24 (stub: not built yet). -/
-def main : IO Unit := pure ()
+import Drivers.Proto
+import PymocaVerif.Model.PyGrammar
+import PymocaVerif.Model.PyPrint
+/-! Driver for C24: the SymPy source printer model (`PyPrint`) and the Python expression
+    grammar (`PyGrammar`) over JSON.
+
+    ops: `model` (flat symbols + equations -> identifiers, display names, equation text, tokens,
+    values at given points), `parse` (token list -> tree), `print` (tree -> text, several printers). -/
+open Lean Drivers PymocaVerif.PyGrammar PymocaVerif.PyPrint
+
+abbrev PName := PymocaVerif.PyGrammar.Name
+
+def nameOf (s : String) : PName := s.toList
+def strOf (n : PName) : String := String.ofList n
+
+def isNumText (s : String) : Bool :=
+  match s.toList with
+  | c :: _ => c.isDigit
+  | [] => false
+
+def atomOf (s : String) : Atom := if isNumText s then Atom.num (nameOf s) else Atom.name (nameOf s)
+
+def bopCode (s : String) : Except String Nat :=
+  match s with
+  | "+" => pure 0 | "-" => pure 1 | "*" => pure 2 | "/" => pure 3 | "^" => pure 4 | "**" => pure 4
+  | o => throw s!"bad-binop {o}"
+
+def popCode (s : String) : Except String Nat :=
+  match s with
+  | "+" => pure 0 | "-" => pure 1
+  | o => throw s!"bad-prefix-op {o}"
+
+def arrAt (a : Array Json) (i : Nat) : Json := a[i]?.getD Json.null
+
+/-- flat Modelica term -> E over Modelica names -/
+partial def termOf (j : Json) : Except String E := do
+  let a ← j.getArr?
+  let k ← (arrAt a 0).getStr?
+  match k with
+  | "v" => do pure (E.atom (Atom.name (nameOf (← (arrAt a 1).getStr?))))
+  | "n" => do pure (E.atom (Atom.num (nameOf (← (arrAt a 1).getStr?))))
+  | "b" => do
+    let o ← bopCode (← (arrAt a 1).getStr?)
+    pure (E.bin o (← termOf (arrAt a 2)) (← termOf (arrAt a 3)))
+  | "u" => do
+    let q ← popCode (← (arrAt a 1).getStr?)
+    pure (E.pre q (← termOf (arrAt a 2)))
+  | "c" => do pure (E.call (nameOf (← (arrAt a 1).getStr?)) (← termOf (arrAt a 2)))
+  | "d" => do pure (E.der (← termOf (arrAt a 1)))
+  | k => throw s!"bad-term {k}"
+
+/-- Python tree (harness vocabulary) -> E -/
+partial def treeOf (j : Json) : Except String E := do
+  let a ← j.getArr?
+  let k ← (arrAt a 0).getStr?
+  match k with
+  | "a" => do pure (E.atom (atomOf (← (arrAt a 1).getStr?)))
+  | "b" => do pure (E.bin (← (arrAt a 1).getNat?) (← treeOf (arrAt a 2)) (← treeOf (arrAt a 3)))
+  | "p" => do pure (E.pre (← (arrAt a 1).getNat?) (← treeOf (arrAt a 2)))
+  | "c" => do pure (E.call (nameOf (← (arrAt a 1).getStr?)) (← treeOf (arrAt a 2)))
+  | "d" => do pure (E.der (← treeOf (arrAt a 1)))
+  | k => throw s!"bad-tree {k}"
+
+def atomStr : Atom → String
+  | Atom.name s => strOf s
+  | Atom.num s => strOf s
+
+partial def treeJson : E → Json
+  | E.atom a => Json.arr #[Json.str "a", Json.str (atomStr a)]
+  | E.bin o l r => Json.arr #[Json.str "b", Json.num o, treeJson l, treeJson r]
+  | E.pre q e => Json.arr #[Json.str "p", Json.num q, treeJson e]
+  | E.call g e => Json.arr #[Json.str "c", Json.str (strOf g), treeJson e]
+  | E.der e => Json.arr #[Json.str "d", treeJson e]
+
+def tokOf (j : Json) : Except String Tok := do
+  let a ← j.getArr?
+  let k ← (arrAt a 0).getStr?
+  match k with
+  | "a" => do pure (Tok.atom (atomOf (← (arrAt a 1).getStr?)))
+  | "b" => do pure (Tok.bop (← (arrAt a 1).getNat?))
+  | "p" => do pure (Tok.pop (← (arrAt a 1).getNat?))
+  | "(" => pure Tok.lp
+  | ")" => pure Tok.rp
+  | "f" => do pure (Tok.fn (nameOf (← (arrAt a 1).getStr?)))
+  | "diff" => pure Tok.diff
+  | k => throw s!"bad-token {k}"
+
+def tokJson : Tok → Json
+  | Tok.atom a => Json.arr #[Json.str "a", Json.str (atomStr a)]
+  | Tok.bop o => Json.arr #[Json.str "b", Json.num o]
+  | Tok.pop q => Json.arr #[Json.str "p", Json.num q]
+  | Tok.lp => Json.arr #[Json.str "("]
+  | Tok.rp => Json.arr #[Json.str ")"]
+  | Tok.fn g => Json.arr #[Json.str "f", Json.str (strOf g)]
+  | Tok.diff => Json.arr #[Json.str "diff"]
+
+def ratOf (s : String) : Except String Rat :=
+  match s.splitOn "/" with
+  | [n] => match n.toInt? with
+    | some i => pure (i : Rat)
+    | none => throw s!"bad-rational {s}"
+  | [n, d] => match n.toInt?, d.toNat? with
+    | some i, some k => if k = 0 then throw s!"bad-rational {s}" else pure (mkRat i k)
+    | _, _ => throw s!"bad-rational {s}"
+  | _ => throw s!"bad-rational {s}"
+
+def ratStr (r : Rat) : String := s!"{r.num}/{r.den}"
+
+def objPairs (j : Json) : Except String (List (String × Json)) := do
+  let o ← j.getObj?
+  pure (o.toList)
+
+def lookupIn {β : Type} (tbl : List (PName × β)) (n : PName) : Option β :=
+  match tbl.find? (fun p => p.1 == n) with
+  | some p => some p.2
+  | none => none
+
+def ratTable (j : Json) : Except String (List (PName × Rat)) := do
+  let ps ← objPairs j
+  ps.mapM fun (k, v) => do pure (nameOf k, ← ratOf (← v.getStr?))
+
+def symOf (j : Json) : Except String Sym := do
+  let n ← getStr j "name"
+  let ps ← (← getArr j "prefixes").toList.mapM (·.getStr?)
+  pure { name := nameOf n, prefixes := ps }
+
+def variantOf (s : String) : Except String Variant :=
+  match s with
+  | "cur" => pure Variant.cur
+  | "fix" => pure Variant.fix
+  | v => throw s!"bad-variant {v}"
+
+def namesJson (l : List PName) : Json := Json.arr (l.map (fun n => Json.str (strOf n))).toArray
+
+def handle (req : Json) : Except String Json := do
+  let op ← getStr req "op"
+  match op with
+  | "model" => do
+    let B := (← (← getArr req "B").toList.mapM (·.getStr?)).map nameOf
+    let variant ← variantOf (← getStr req "variant")
+    let syms ← (← getArr req "syms").toList.mapM symOf
+    let eqs ← (← getArr req "eqs").toList.mapM fun j => do
+      let a ← j.getArr?
+      pure (← termOf (arrAt a 0), ← termOf (arrAt a 1))
+    let lits ← ratTable (← getObj req "litvals")
+    let fnTbl ← (← objPairs (← getObj req "fn")).mapM fun (k, v) => do
+      let a ← v.getArr?
+      pure (nameOf k, (← ratOf (← (arrAt a 0).getStr?), ← ratOf (← (arrAt a 1).getStr?)))
+    let A := ratAlg (lookupIn lits) (lookupIn fnTbl)
+    let points ← (← getArr req "points").toList.mapM fun j => do
+      let env ← ratTable (← getObj j "env")
+      let denv ← ratTable (← getObj j "denv")
+      pure ({ var := lookupIn env, dvar := lookupIn denv } : Env Rat)
+    let otherVar := (getBool req "other_as_var").toOption.getD false
+    let L := if otherVar then classifyFix syms else classify syms
+    let lists := Json.mkObj [
+      ("x", namesJson (idents B L.x)), ("v", namesJson (idents B L.v)), ("c", namesJson (idents B L.c)),
+      ("p", namesJson (idents B L.p)), ("u", namesJson (idents B L.u)), ("y", namesJson (idents B L.y))]
+    let shownJ := Json.mkObj [
+      ("x", namesJson (shown B L.x)), ("v", namesJson (shown B L.v)), ("c", namesJson (shown B L.c)),
+      ("p", namesJson (shown B L.p)), ("u", namesJson (shown B L.u)), ("y", namesJson (shown B L.y))]
+    let toks := eqs.map fun (l, r) => eqToks variant B l r
+    let srcs := toks.map render
+    let parsed := toks.map fun ts => match pyParse ts with
+      | some e => treeJson e
+      | none => Json.null
+    let noparen := eqs.map fun (l, r) => Json.bool (noParenB pyTbl 1 l && noParenB pyTbl 0 r)
+    let values := eqs.map fun (l, r) =>
+      Json.arr (points.map fun ρ => match eval A ρ (eqTree l r) with
+        | some q => Json.str (ratStr q)
+        | none => Json.null).toArray
+    -- the meaning theorem, executed: the parsed text evaluated in the pulled-back environment
+    let vars := (eqs.flatMap fun (l, r) => PymocaVerif.PyPrint.names l ++ PymocaVerif.PyPrint.names r).eraseDups
+    let pyvalues := toks.map fun ts =>
+      Json.arr (points.map fun ρ => match pyParse ts with
+        | some e => (match eval A (pull (mangleRef B) vars ρ) e with
+          | some q => Json.str (ratStr q)
+          | none => Json.null)
+        | none => Json.null).toArray
+    pure (Json.mkObj [("ok", true), ("lists", lists), ("names", shownJ),
+      ("eq_src", Json.arr (srcs.map Json.str).toArray),
+      ("eq_toks", Json.arr (toks.map fun ts => Json.arr (ts.map tokJson).toArray).toArray),
+      ("eq_parse", Json.arr parsed.toArray), ("noparen", Json.arr noparen.toArray),
+      ("values", Json.arr values.toArray), ("pyvalues", Json.arr pyvalues.toArray)])
+  | "parse" => do
+    let toks ← (← getArr req "toks").toList.mapM tokOf
+    let t := match pyParse toks with
+      | some e => treeJson e
+      | none => Json.null
+    pure (Json.mkObj [("ok", true), ("tree", t)])
+  | "print" => do
+    let e ← treeOf (← getObj req "tree")
+    let mode ← getStr req "mode"
+    let seed := (getNat req "seed").toOption.getD 0
+    let toks ← match mode with
+      | "min" => pure (prMin pyTbl 0 e)
+      | "extra" => pure (prExtra pyTbl seed 0 e)
+      | "fix" => pure (prFix e)
+      | "none" => pure (prCur e)
+      | m => throw s!"bad-mode {m}"
+    pure (Json.mkObj [("ok", true), ("text", Json.str (render toks)),
+      ("toks", Json.arr (toks.map tokJson).toArray)])
+  | o => throw s!"unknown-op {o}"
+
+def main : IO Unit := serve handle
